@@ -19,7 +19,7 @@ from __future__ import annotations
 
 import ast
 from dataclasses import dataclass, field
-from typing import Callable, Iterable, Iterator
+from typing import Any, Callable, Iterable, Iterator
 
 from .report import AnalysisError
 from .resolver import dotted, walk_no_nested
@@ -189,6 +189,7 @@ class CFG:
         self.pred: dict[int, list[tuple[int, str]]] = {}
         self._by_ast: dict[int, list[int]] = {}
         self._may_raise_override = may_raise
+        self.back_edges: set[tuple[int, int]] = set()
         self.entry = self._new("entry", None)
         self.exit = self._new("exit", None)
         self.raise_exit = self._new("raise", None)
@@ -326,6 +327,119 @@ class CFG:
             out.append(f"{edge}{loc} [{n.kind}] {n.text()}")
         return out
 
+    # -------------------------------------------------------------- boolean-flag sensitive search
+    def _flag_after(self, nid: int, state: tuple[tuple[str, bool], ...],
+                    track: set[str]) -> tuple[tuple[str, bool], ...]:
+        n = self.nodes[nid]
+        a = n.ast
+        if n.kind == "stmt" and isinstance(a, (ast.Assign, ast.AnnAssign)):
+            tgts = a.targets if isinstance(a, ast.Assign) else [a.target]
+            val = a.value
+            for t in tgts:
+                if isinstance(t, ast.Name) and t.id in track:
+                    d = dict(state)
+                    if isinstance(val, ast.Constant) and isinstance(val.value, bool):
+                        d[t.id] = val.value
+                    else:
+                        d.pop(t.id, None)
+                    return tuple(sorted(d.items()))
+        return state
+
+    def _flag_edge_ok(self, nid: int, lab: str, state: tuple[tuple[str, bool], ...],
+                      track: set[str]) -> bool:
+        n = self.nodes[nid]
+        if n.kind != "test" or n.ast is None or lab not in ("true", "false"):
+            return True
+        e = n.ast
+        neg = False
+        while isinstance(e, ast.UnaryOp) and isinstance(e.op, ast.Not):
+            neg = not neg
+            e = e.operand
+        if isinstance(e, ast.Name) and e.id in track:
+            known = dict(state).get(e.id)
+            if known is None:
+                return True
+            return (known != neg) == (lab == "true")
+        return True
+
+    def flag_states(self, src: int, track: set[str],
+                    init: tuple[tuple[str, bool], ...] = (),
+                    avoid: Iterable[int] = ()) -> dict[int, set[tuple[tuple[str, bool], ...]]]:
+        """Forward exploration: the flag valuations with which each node can be *entered*."""
+        avoid_s = set(avoid)
+        seen: dict[int, set[tuple[tuple[str, bool], ...]]] = {src: {init}}
+        stack = [(src, init)]
+        while stack:
+            n, st = stack.pop()
+            for m, lab in self.succ[n]:
+                if m in avoid_s or not self._flag_edge_ok(n, lab, st, track):
+                    continue
+                st2 = st if lab.startswith("exc:") else self._flag_after(n, st, track)
+                if st2 not in seen.setdefault(m, set()):
+                    seen[m].add(st2)
+                    stack.append((m, st2))
+        return seen
+
+    def path_flags(self, src: int, dsts: Iterable[int], track: set[str],
+                   init: tuple[tuple[str, bool], ...] = (), avoid: Iterable[int] = (),
+                   edge_ok: Callable[[int, int, str], bool] | None = None
+                   ) -> list[tuple[int, str]] | None:
+        """Like path(), but boolean flags assigned constants are tracked along the path and
+        `if flag:` / `if not flag:` tests only take the consistent branch."""
+        dst_s = set(dsts)
+        avoid_s = set(avoid)
+        start = (src, init)
+        prev: dict[tuple[int, Any], tuple[tuple[int, Any], str]] = {}
+        seen = {start}
+        queue = [start]
+        qi = 0
+        while qi < len(queue):
+            cur = queue[qi]
+            qi += 1
+            n, st = cur
+            for m, lab in self.succ[n]:
+                if m in avoid_s or not self._flag_edge_ok(n, lab, st, track):
+                    continue
+                if edge_ok is not None and not edge_ok(n, m, lab):
+                    continue
+                st2 = st if lab.startswith("exc:") else self._flag_after(n, st, track)
+                nxt = (m, st2)
+                if m in dst_s:
+                    out = [(m, lab)]
+                    c = cur
+                    while c != start:
+                        p, plab = prev[c]
+                        out.append((c[0], plab))
+                        c = p
+                    out.append((src, ""))
+                    return list(reversed(out))
+                if nxt in seen:
+                    continue
+                seen.add(nxt)
+                prev[nxt] = (cur, lab)
+                queue.append(nxt)
+        return None
+
+    def bool_flags(self) -> set[str]:
+        """Local names that are only ever assigned boolean constants."""
+        vals: dict[str, bool] = {}
+        for n in self.nodes:
+            a = n.ast
+            if n.kind == "stmt" and isinstance(a, (ast.Assign, ast.AnnAssign, ast.AugAssign)):
+                tgts = a.targets if isinstance(a, ast.Assign) else [a.target]
+                for t in tgts:
+                    for x in ast.walk(t):
+                        if isinstance(x, ast.Name):
+                            is_const = (not isinstance(a, ast.AugAssign) and isinstance(
+                                a.value, ast.Constant) and isinstance(a.value.value, bool)
+                                and x is t)
+                            vals[x.id] = vals.get(x.id, True) and is_const
+            elif n.kind == "for" and n.ast is not None:
+                for x in ast.walk(n.ast.target):  # type: ignore[attr-defined]
+                    if isinstance(x, ast.Name):
+                        vals[x.id] = False
+        return {k for k, v in vals.items() if v}
+
     def dominators(self) -> dict[int, set[int]]:
         """dom[n] = nodes that lie on every path entry -> n (including n)."""
         reach = self.reachable([self.entry])
@@ -364,7 +478,7 @@ class CFG:
         return any(isinstance(x, ast.Await) for part in own_parts(n) for x in walk_no_nested(part))
 
     def loop_back_edges(self) -> list[tuple[int, int]]:
-        return [(a, b) for a in self.succ for b, lab in self.succ[a] if lab in ("back", "continue")]
+        return sorted(self.back_edges)
 
     def dump(self) -> str:
         out = []
@@ -477,6 +591,7 @@ class _LoopCtx(_Ctx):
     def do_continue(self, b: "_Builder", fr: Frontier) -> None:
         for n, _ in fr:
             b.g._edge(n, self.header, "continue")
+            b.g.back_edges.add((n, self.header))
 
 
 class _TryCtx(_Ctx):
@@ -582,7 +697,8 @@ class _Builder:
             loop = _LoopCtx(ctx, t)
             body_out = self.block(s.body, [(t, "true")], loop)
             for n, lab in body_out:
-                g._edge(n, t, "back" if lab == "next" else lab + "+back")
+                g._edge(n, t, "back" if lab == "next" else lab)
+                g.back_edges.add((n, t))
             const_true = isinstance(s.test, ast.Constant) and bool(s.test.value)
             out: Frontier = []
             if not const_true:
@@ -599,7 +715,8 @@ class _Builder:
             loop = _LoopCtx(ctx, h)
             body_out = self.block(s.body, [(h, "iter")], loop)
             for n, lab in body_out:
-                g._edge(n, h, "back" if lab == "next" else lab + "+back")
+                g._edge(n, h, "back" if lab == "next" else lab)
+                g.back_edges.add((n, h))
             out = self.block(s.orelse, [(h, "done")], ctx) if s.orelse else [(h, "done")]
             return out + loop.breaks
         if isinstance(s, (ast.With, ast.AsyncWith)):
